@@ -13,7 +13,8 @@ REQ = ("From Coq Require Import List NArith.\nFrom Delb.Base Require Import PySt
        "From Delb.Tree Require Import ATree ITree Encode.\n"
        "From Delb.XPath Require Import Ast AstEnc Nav Eval Ref Subset Run.\n")
 
-EXN = ["XPathEvaluationError", "AttributeError", "AssertionError", "TypeError", "NotImplementedError", "OtherError"]
+EXN = ["XPathEvaluationError", "AttributeError", "AssertionError", "TypeError", "NotImplementedError", "OtherError",
+       "ValueError", "AmbiguousTreeError"]
 
 
 def split_clark(key):
